@@ -277,8 +277,9 @@ def distribution_case(rng, shape=None):
     chose the group."""
     shape = shape or rng.choice(['two', 'three'])
     if shape == 'two':
-        base = [['D1', 0.25], ['D2', 0.75]]
-        terms = {'D1': [['1', 0.5], ['2', 0.5]], 'D2': [['11', 0.5], ['22', 0.5]]}
+        # the third structure holds a word that is not in Unicode normal form C (GREEK SMALL LETTER ALPHA WITH OXIA): the word is that code point
+        base = [['D1', 0.2], ['D2', 0.6], ['A3', 0.2]]
+        terms = {'D1': [['1', 0.5], ['2', 0.5]], 'D2': [['11', 0.5], ['22', 0.5]], 'A3': [['ab\u1f71', 0.5], ['xyz', 0.5]], 'C3': [['LLL', 0.5], ['ULL', 0.5]]}
     else:
         base = [['A3', 0.5], ['D2', 0.3], ['O1D1', 0.2]]
         terms = {'A3': [['abc', 0.35], ['d\xe9g', 0.35], ['fox', 0.3]], 'C3': [['LLL', 0.5], ['ULL', 0.5]], 'D2': [['12', 0.4], ['34', 0.4], ['56', 0.2]],
@@ -326,7 +327,7 @@ def check_distribution(run, case):
                                   case, observed={w_: round(got.get(w_, 0) / N_, 4) for w_ in sorted(exact)}, expected={w_: round(p2, 4) for w_, p2 in sorted(exact.items())}); return
         # the same two modes through the command line with a standard output in a legacy code page (the words hold a Latin-1 letter): every line, decoded the way
         # the consumer was told, is a word of the ruleset
-        for mode in ('random_walk', 'honeywords'):
+        for mode in (('random_walk', 'honeywords') if all(w.encode('latin-1', 'ignore').decode('latin-1') == w for w in exact) else ()):
             for oenc in ('latin-1', 'cp1252'):
                 out, err, rc, to = cli.run_cli('pcfg_guesser.py', ['-r', name, '-s', sn, '-m', mode, '-n', '80'], stdin_mode='eof', timeout=60, max_out=1 << 20,
                                                env={'PYTHONIOENCODING': oenc})
